@@ -17,10 +17,23 @@ Streams
             `FortranSourceFile`; oracle: equal entity trees (names, kinds, arguments,
             variables, types, calls, uses, doc lines).
 
+  include : main file + include files, all random fixed-form layouts, as a fixed-form tree and as the
+            equivalent free-form tree; correspondence: real reader == Lean `readFixedTree` (C02's include
+            queue with the converter in front of every reader); oracle: items(fixed tree) ==
+            items(free tree) == token sequences with each include statement replaced by its file's items.
+  project : (a) form probe: stub files of every extension through the real `Project`; parsed? in which
+            form? against the Lean `sourceForm`; (b) generated modules as the only file of a project with
+            a fixed-form extension vs a free-form one; oracle: one source file each, equal entity trees.
+
+Documentation marks are an input dimension (`MARK_SETS`): every case draws (docmark, predocmark,
+docmark_alt, predocmark_alt); doc lines of all four kinds are written with a comment character in
+column 1, an indented `!` in columns 2-5 or a `!` from column 7 on.  Exceptions of the code under
+test are outcomes (correspondence disagreement / failing input), never a crash of the harness.
+
 Variant.  The Lean model has three run-time flags (`Ford.Fixed.Variant`: blankShort,
 col7Comment, spacedExcess) = the three edits of fixes/C14-comment-lines-and-overflow-mark.diff.
 `probe_variant()` decides them by running the real `FortranLine` on three probe lines;
-`translate/c14.py` reads them from the shape of the source; both must agree.  A finding class
+`translate/c14.py` derives them (and every other table) by probing too; both must agree.  A finding class
 whose defect the probed variant no longer has is not a class any more: its layouts are then
 generated in every case (also the `risky=False` ones) and a failure is a VIOLATION.
 """
@@ -36,6 +49,10 @@ from .common import Driver, Report, lean_prove
 
 PROP = "C14"
 MARKS = ("!", ">", "*", "|")
+# (docmark, predocmark, docmark_alt, predocmark_alt) of a case: mostly the usual four, sometimes a
+# customised set (other characters, a two-character docmark, no alternative marks at all)
+MARK_SETS = [MARKS, MARKS, MARKS, MARKS, MARKS, ("<", "^", "+", "~"), ("!<", ">", "*", "|"), ("!", ">", "", ""),
+             ("~", "", "*", "")]
 
 F_INLINE = "C14-comment-on-continued-line"
 F_BETWEEN = "C14-col7-comment-or-blank-line-between-continuation"
@@ -122,14 +139,18 @@ COMMENT_REST = ["", " old,", "     old,", " x = 1", " call f(a,", "ision: 1.4 $"
                 " parallel do", " end &", " a ! b", " it's", ' "q']
 
 
-def gen_comment_rest(rng):
+def starts_with_mark(t: str, marks) -> bool:
+    return any(m and t.startswith(m) for m in marks)
+
+
+def gen_comment_rest(rng, marks=MARKS):
     """Text of a comment line from column 2 on (no newline) and the feature names it has."""
     feats = set()
     while True:
         f4 = rng.choice(COMMENT_F4) if rng.random() < 0.7 else "".join(
             rng.choice(COMMENT_F4_ALPHABET) for _ in range(4))
         f4 = f4.ljust(4)
-        if f4[0] in MARKS or f4.lower() == "$omp":
+        if f4[0] in MARKS or starts_with_mark(f4, marks) or f4.lower() == "$omp":
             continue
         break
     c6 = rng.choice(CONT_CHARS + "  0")
@@ -169,18 +190,94 @@ def squeeze(s: str) -> str:
 
 
 class Layout:
-    """Accumulates the two renderings and the decidable finding classes of one case."""
+    """Accumulates the two renderings and the decidable finding classes of one case.
 
-    def __init__(self, rng, lim, risky=True, var: Variant = AS_IS):
+    Documentation semantics that the expected item list follows (the reader's, the same for both
+    forms): a line `!<docmark>t` is a doc item; `!<predocmark>t` / `!<predocmark_alt>t` are doc
+    items that come out *after* the statement that follows them; after a `!<docmark_alt>t` line
+    every whole-line comment is a doc item until a blank line, a statement line or another doc
+    line (`docmode == "alt"`), after a `!<predocmark_alt>t` line likewise but blank lines do not
+    end the block (`docmode == "prealt"`)."""
+
+    def __init__(self, rng, lim, risky=True, var: Variant = AS_IS, marks=MARKS):
         self.rng = rng
         self.lim = lim
         self.var = var      # variant of the code under test: decides which layouts are finding classes
         self.risky = risky  # False: stay outside every known finding class by construction
+        self.marks = marks
+        self.doc2 = "!" + marks[0]
+        self.docmode = None
         self.fixed: list[str] = []
         self.free: list[str] = []
         self.expected: list[tuple[str, str]] = []
         self.feat: set[str] = set()
         self.classes: set[str] = set()
+
+    # ---- bookkeeping of the documentation state
+    def _doc(self, t, kind=0):
+        """a doc line with mark number `kind` (0 doc, 1 predoc, 2 alt, 3 predoc_alt) and text t"""
+        self.expected.append(("doc", self.doc2 + t))
+        self.docmode = {2: "alt", 3: "prealt"}.get(kind)
+
+    def _comment(self, t):
+        """a whole-line comment `!t`"""
+        if self.docmode:
+            self.expected.append(("doc", self.doc2 + t))
+            self.feat.add("comment-line-inside-" + self.docmode + "-block")
+
+    def _blank(self):
+        if self.docmode == "alt":
+            self.docmode = None
+
+    def comment_text(self):
+        rng = self.rng
+        while True:
+            if rng.random() < 0.5:
+                t, fs = rng.choice(COMMENT_TEXT), set()
+            else:
+                t, fs = gen_comment_rest(rng, self.marks)
+            if not starts_with_mark(t, self.marks):
+                return t, fs
+
+    def doc_line(self, kind, style, between_cont=False):
+        """One own-line documentation comment: mark number `kind`, written with a comment
+        character in column 1 (`col1`), an indented `!` in columns 2-5 (`col2-5`) or a `!` in
+        column 7 or later (`col7`)."""
+        rng = self.rng
+        mark = self.marks[kind]
+        t = rng.choice(DOC_TEXT)
+        name = ("doc", "predoc", "altdoc", "predocalt")[kind]
+        if style == "col1":
+            x = rng.choice("cC*!")
+            self.fixed.append(x + mark + t)
+            self.free.append("!" + mark + t)
+            self.feat.add("doc-line-col1")
+            self.feat.add(f"{name}-line-col1-" + {"c": "c", "C": "C", "*": "star", "!": "bang"}[x])
+        else:
+            ind = " " * (rng.randint(1, 4) if style == "col2-5" else rng.randint(6, 12))
+            self.fixed.append(ind + "!" + mark + t)
+            self.free.append(ind + "!" + mark + t)
+            self.feat.add("doc-line-" + style)
+            self.feat.add(f"{name}-line-{style}")
+        if mark != "!":
+            self.feat.add("doc-mark-not-bang")
+        self._doc(t, kind)
+
+    def doc_kinds(self, pre_ok):
+        """mark numbers that may be used here (the preceding marks only where the caller knows
+        where the doc goes: inside a continued statement, or directly before a statement)"""
+        return [k for k in (0, 0, 1, 2, 2, 3) if self.marks[k] and (pre_ok or k in (0, 2))]
+
+    def block_tail(self, kind):
+        """the usual shape of an alternative-mark block: plain comment lines follow the first one"""
+        rng = self.rng
+        if kind in (2, 3) and rng.random() < 0.6:
+            for _ in range(rng.randint(1, 2)):
+                x = rng.choice("cC*!")
+                t = rng.choice(["  more text", " more & more", "   it's", ""])
+                self.fixed.append(x + t)
+                self.free.append("!" + t)
+                self._comment(t)
 
     # ---- filler lines (comment lines, blank lines, ...) between two physical lines
     def filler(self, between_cont: bool, allow_doc=True):
@@ -190,50 +287,47 @@ class Layout:
             r = rng.random()
             if r < 0.30:
                 x = rng.choice("cC*!")
-                if rng.random() < 0.5:
-                    t = rng.choice(COMMENT_TEXT)
-                else:
-                    t, fs = gen_comment_rest(rng)
-                    self.feat |= fs
-                    if between_cont:
-                        self.feat |= {f + "-between-continuation" for f in fs}
+                t, fs = self.comment_text()
+                self.feat |= fs
+                if between_cont:
+                    self.feat |= {f + "-between-continuation" for f in fs}
                 self.fixed.append(x + t)
                 self.free.append("!" + t)
+                self._comment(t)
                 self.feat.add("comment-line-" + {"c": "c", "C": "C", "*": "star", "!": "bang"}[x])
             elif r < 0.40:
                 ind = " " * rng.randint(1, 4)
                 t = rng.choice(COMMENT_TEXT)
                 self.fixed.append(ind + "!" + t)
                 self.free.append(ind + "!" + t)
+                self._comment(t)
                 self.feat.add("comment-line-bang-col2-5")
             elif r < 0.55:
                 b = " " * rng.randint(0, 5)
                 self.fixed.append(b)
                 self.free.append("")
+                self._blank()
                 self.feat.add("short-blank-line")
             elif r < 0.70 and allow_doc:
-                x = rng.choice("cC*!")
-                t = rng.choice(DOC_TEXT)
-                self.fixed.append(x + "!" + t)
-                self.free.append("!!" + t)
-                self.expected.append(("doc", "!!" + t))
-                self.feat.add("doc-line-col1")
+                # documentation comment with a comment character in column 1 (or an indented `!` in
+                # columns 2-5) and any of the configured marks behind it
+                kind = rng.choice(self.doc_kinds(between_cont))
+                self.doc_line(kind, "col1" if rng.random() < 0.8 else "col2-5", between_cont)
+                self.block_tail(kind)
             elif r < 0.80 and allow_doc:
                 # own-line doc / comment starting in the statement field (column 7+)
                 held = self.var.col7_comment   # the code under test holds such a line back
                 if between_cont and not held and (not self.risky or rng.random() < 0.6):
                     continue
-                ind = " " * rng.randint(6, 12)
                 if rng.random() < 0.6:
-                    t = rng.choice(DOC_TEXT)
-                    self.fixed.append(ind + "!!" + t)
-                    self.free.append(ind + "!!" + t)
-                    self.expected.append(("doc", "!!" + t))
-                    self.feat.add("doc-line-col7")
+                    kind = rng.choice(self.doc_kinds(between_cont))
+                    self.doc_line(kind, "col7", between_cont)
                 else:
+                    ind = " " * rng.randint(6, 12)
                     t = rng.choice(COMMENT_TEXT)
                     self.fixed.append(ind + "!" + t)
                     self.free.append(ind + "!" + t)
+                    self._comment(t)
                     self.feat.add("comment-line-col7")
                 if between_cont:
                     self.feat.add("col7-line-between-continuation")
@@ -245,6 +339,7 @@ class Layout:
                     continue
                 self.fixed.append(" " * rng.choice([6, 7, 8, 12, 20, 72, 73, 80]))
                 self.free.append("")
+                self._blank()
                 self.feat.add("long-blank-line")
                 if between_cont:
                     self.feat.add("long-blank-line-between-continuation")
@@ -259,7 +354,9 @@ class Layout:
                 self.feat.add("cpp-line")
                 if between_cont:
                     self.feat.add("cpp-line-between-continuation")
-            elif not between_cont:
+            elif not between_cont and not self.docmode:
+                # (inside an alternative-mark block the sentinel line would be a doc line whose text
+                # is laid out differently by the converter - not taken a side on)
                 x = rng.choice("cC*!")
                 self.fixed.append(x + rng.choice(["$omp", "$OMP", "$Omp"]) + " parallel do")
                 self.free.append("!$omp parallel do")
@@ -269,8 +366,40 @@ class Layout:
                     self.free.append("!$omp private(i)")
                     self.feat.add("omp-continuation")
 
+    def predoc_block(self):
+        """Preceding documentation directly in front of a statement: lines `!<predocmark>t`, or one
+        line `!<predocmark_alt>t` followed by plain comment lines.  Returns the doc items (they are
+        due after the statement)."""
+        rng = self.rng
+        kinds = [k for k in (1, 1, 3) if self.marks[k]]
+        if not kinds:
+            return []
+        kind = rng.choice(kinds)
+        n0 = len(self.expected)
+        for _ in range(rng.randint(1, 3) if kind == 1 else 1):
+            self.doc_line(kind, rng.choice(["col1", "col1", "col1", "col2-5", "col7"]))
+        self.block_tail(kind)
+        self.feat.add("predoc-block-before-statement")
+        docs = [t for _, t in self.expected[n0:]]
+        del self.expected[n0:]
+        return docs
+
+    def include_statement(self, name, subs):
+        """`include 'name'` alone on its logical line; in the expected items the statement is
+        replaced by the items of the named file (`subs[name]`, rendered in the same form)."""
+        rng = self.rng
+        kw = rng.choice(["include", "include", "INCLUDE", "Include"])
+        q = rng.choice("'\"")
+        n0 = len(self.expected)
+        self.statement([("code", kw + " " + q + name + q)], None, predoc=rng.random() < 0.5)
+        assert self.expected[n0][0] == "stmt"
+        self.expected[n0:n0 + 1] = subs[name].expected
+        self.feat.add("include")
+        if "include" in subs[name].feat:
+            self.feat.add("include-nested")
+
     # ---- one statement
-    def statement(self, toks, label=None, fill_inside=True, own_doc=None):
+    def statement(self, toks, label=None, fill_inside=True, predoc=True):
         rng, lim = self.rng, self.lim
         width = 66 if lim else rng.choice([66, 66, 40, 110])
         pbreak = rng.choice([0.0, 0.15, 0.4])
@@ -295,10 +424,12 @@ class Layout:
         if label is not None:
             lab = str(label)
             self.feat.add("label")
+        # preceding documentation directly in front of the statement comes out after it
+        docs_after = self.predoc_block() if (predoc and rng.random() < 0.2) else []
         self.expected.append(("stmt", lab + text))
-        docs_after = []
         for i, code in enumerate(pieces):
             last = i == n - 1
+            self.docmode = None     # a statement line ends every alternative-mark block
             if i == 0:
                 if lab:
                     pad = 5 - len(lab)
@@ -319,7 +450,7 @@ class Layout:
             p_inline = 0.35 if last else (0.15 if self.risky else 0.0)
             if rng.random() < p_inline and len(line) < 64:
                 isdoc = rng.random() < 0.5
-                t = ("!!" + rng.choice(DOC_TEXT)) if isdoc else ("!" + rng.choice(COMMENT_TEXT))
+                t = (self.doc2 + rng.choice(DOC_TEXT)) if isdoc else ("!" + rng.choice(COMMENT_TEXT))
                 if rng.random() < 0.08 and (self.risky or not isdoc or not lim):
                     t += " long" * 12
                 gap = rng.choice(["", " ", "   "])
@@ -333,7 +464,7 @@ class Layout:
             if (lim and len(line) <= 72 and rng.random() < 0.2
                     and (self.risky or inline is None or not inline[1])):
                 plain = rng.random() < 0.85 if (self.risky or self.var.spaced_excess) else True
-                seq = rng.choice(SEQ_TEXT) if plain else rng.choice(["!SEQ", "!! x", "!> y", "!"])
+                seq = rng.choice(SEQ_TEXT) if plain else rng.choice(["!SEQ", "!! x", "!> y", "!", self.doc2 + " x"])
                 line = line.ljust(72) + seq
                 self.feat.add("sequence-field")
                 if seq.startswith("!"):
@@ -369,8 +500,8 @@ class Layout:
             self.expected.append(("doc", d))
 
 
-def gen_layout_case(rng, lim, risky=True, var: Variant = AS_IS):
-    L = Layout(rng, lim, risky, var)
+def gen_layout_case(rng, lim, risky=True, var: Variant = AS_IS, marks=None):
+    L = Layout(rng, lim, risky, var, marks or rng.choice(MARK_SETS))
     if rng.random() < 0.3:
         L.filler(False, allow_doc=False)
     nst = rng.randint(1, 4)
@@ -392,13 +523,21 @@ def impl_conv(lines, lim):
     return list(convertToFree(iter(lines), lim))
 
 
-def impl_read(path: Path, fixed: bool, lim: bool):
+def impl_conv_safe(lines, lim):
+    """`["ok", line*]`, or `["exc", what]` when the converter raises"""
+    try:
+        return ["ok", *impl_conv(lines, lim)]
+    except Exception as e:   # noqa: BLE001
+        return ["exc", exc_name(e)]
+
+
+def impl_read(path: Path, fixed: bool, lim: bool, marks=MARKS):
     """list(FortranReader(path)) with errors mapped to the model's enum."""
     from ford.reader import FortranReader
 
     try:
         with common.quiet():
-            return ("ok", list(FortranReader(str(path), *MARKS, fixed=fixed, length_limit=lim)))
+            return ("ok", list(FortranReader(str(path), *marks, fixed=fixed, length_limit=lim)))
     except ValueError as e:
         msg = str(e)
         if "Preceding documentation lines" in msg:
@@ -420,9 +559,10 @@ def canon_items(items):
     return [i.rstrip() if i.startswith("!") else squeeze(i) for i in items]
 
 
-def layout_oracle(expected, it_fixed, it_free):
+def layout_oracle(expected, it_fixed, it_free, marks=MARKS):
     """None when the .f rendering yields the same statements and docs as the .f90
     rendering, and both are the token sequences the case was generated from."""
+    blank_doc = "!" + marks[0]
     if it_fixed[0] != "ok":
         return f"fixed-form reader raised {it_fixed[1]}"
     if it_free[0] != "ok":
@@ -433,7 +573,8 @@ def layout_oracle(expected, it_fixed, it_free):
             if x != y:
                 return f"item {k}: free-form {x!r} fixed-form {y!r}"
     exp = [squeeze(t) if kind == "stmt" else t.rstrip() for kind, t in expected]
-    got = [i for i in a if i != "!!"]
+    exp = [i for i in exp if i != blank_doc]
+    got = [i for i in a if i != blank_doc]
     if got != exp:
         for k, (x, y) in enumerate(itertools.zip_longest(exp, got)):
             if x != y:
@@ -485,7 +626,13 @@ def gen_junk_line(rng):
     return s
 
 
+def exc_name(e: BaseException) -> str:
+    return f"{type(e).__name__}: {str(e)[:80]}"
+
+
 def junk_stream(drv, rng, n, rep, hist, var: Variant = AS_IS):
+    """The model never fails; an exception of the implementation is an observed outcome
+    (`["exc", ...]`), i.e. a disagreement with the model - never a crash of the harness."""
     from ford.fixed2free2 import FortranLine
 
     reqs, exp, kinds = [], [], []
@@ -493,19 +640,26 @@ def junk_stream(drv, rng, n, rep, hist, var: Variant = AS_IS):
         lim = rng.random() < 0.6
         if rng.random() < 0.4:
             line = gen_junk_line(rng)
-            fl = FortranLine(line, lim)
-            long_reg = bool(fl.isLong and fl.is_regular)
             reqs.append(["c14.analyse", var.code, "1" if lim else "0", line])
-            exp.append(["ok", str(fl), "1" if fl.is_regular else "0", "1" if fl.isContinuation else "0",
-                        "1" if long_reg else "0", fl.excess_line])
-            k = ("comment" if fl.isComment else "newcomment" if fl.isNewComment else "cpp" if fl.isCppLine
-                 else "omp" if fl.isOMP else "short" if fl.isShort else
-                 ("cont" if fl.isContinuation else "init") + ("-long" if long_reg else ""))
+            try:
+                fl = FortranLine(line, lim)
+                long_reg = bool(fl.isLong and fl.is_regular)
+                exp.append(["ok", str(fl), "1" if fl.is_regular else "0", "1" if fl.isContinuation else "0",
+                            "1" if long_reg else "0", fl.excess_line])
+                k = ("comment" if fl.isComment else "newcomment" if fl.isNewComment else "cpp" if fl.isCppLine
+                     else "omp" if fl.isOMP else "short" if fl.isShort else
+                     ("cont" if fl.isContinuation else "init") + ("-long" if long_reg else ""))
+            except Exception as e:   # noqa: BLE001 - whatever the code under test raises
+                exp.append(["exc", exc_name(e)])
+                k = "raised"
             hist["junk-line-" + k] = hist.get("junk-line-" + k, 0) + 1
         else:
             lines = [gen_junk_line(rng) for _ in range(rng.randint(0, 7))]
             reqs.append(["c14.conv", var.code, "1" if lim else "0", *lines])
-            exp.append(["ok", *impl_conv(lines, lim)])
+            try:
+                exp.append(["ok", *impl_conv(lines, lim)])
+            except Exception as e:   # noqa: BLE001
+                exp.append(["exc", exc_name(e)])
             hist["junk-file"] = hist.get("junk-file", 0) + 1
     got = drv.batch(reqs)
     bad = 0
@@ -577,8 +731,8 @@ def gen_program(rng, k):
     return out
 
 
-def render_program(rng, prog, lim, risky=True, var: Variant = AS_IS):
-    L = Layout(rng, lim, risky, var)
+def render_program(rng, prog, lim, risky=True, var: Variant = AS_IS, marks=MARKS):
+    L = Layout(rng, lim, risky, var, marks)
     for toks, label in prog:
         L.statement(toks, label)
         L.filler(False)
@@ -622,13 +776,19 @@ def entity_obs(e, depth=0):
     return o
 
 
-def parse_file(path: Path, fixed: bool, lim: bool):
-    import ford.sourceform as sf
+def make_settings(lim: bool, marks=MARKS, **kw):
     from ford.settings import ProjectSettings
 
-    settings = ProjectSettings(fixed_length_limit=lim, predocmark=">", docmark_alt="*", predocmark_alt="|")
+    return ProjectSettings(fixed_length_limit=lim, docmark=marks[0], predocmark=marks[1], docmark_alt=marks[2],
+                           predocmark_alt=marks[3], **kw)
+
+
+def parse_file(path: Path, fixed: bool, lim: bool, marks=MARKS):
+    import ford.sourceform as sf
+
     sf.namelist = sf.NameSelector()
     try:
+        settings = make_settings(lim, marks)
         with common.quiet():
             f = sf.FortranSourceFile(str(path), settings, None, fixed, incl_src=False)
         o = entity_obs(f)
@@ -636,6 +796,14 @@ def parse_file(path: Path, fixed: bool, lim: bool):
         return ("ok", o)
     except Exception as e:
         return ("err", f"{type(e).__name__}: {str(e)[:100]}")
+
+
+def entity_oracle(a, b):
+    """None when the fixed-form parse `a` and the free-form parse `b` give the same entity tree"""
+    if a[0] != "ok" or b[0] != "ok":
+        return f"parse failed: fixed {a if a[0] != 'ok' else 'ok'} free {b if b[0] != 'ok' else 'ok'}"
+    why = first_diff(b[1], a[1])
+    return ("entity trees differ (free vs fixed) at " + why) if why else None
 
 
 def first_diff(a, b, path=""):
@@ -660,7 +828,7 @@ def first_diff(a, b, path=""):
     return None if a == b else f"{path}: {a!r} vs {b!r}"
 
 
-def classify(classes: set[str]):
+def classify(classes):
     """Finding class of a failing input (decided on the generated layout, not on the
     outcome); None when the layout is in no known class."""
     for c in (F_INLINE, F_BETWEEN, F_SEQBANG, F_DOC72):
@@ -670,17 +838,237 @@ def classify(classes: set[str]):
 
 
 # --------------------------------------------------------------------------
+# include stream: a fixed-form file that pulls in other fixed-form files
+# --------------------------------------------------------------------------
+INC_NAMES = ["blk%d.inc", "decl%d.f", "c%d.h", "Part%d.INC", "p%d.for"]
 
-def replay_case(rep, drv, d, case):
-    """Re-run one stored case (fixed lines, free lines, lim) through the oracle."""
-    lim = bool(case.get("lim", True))
-    pf, pq = d / "r.f", d / "r.f90"
+
+def gen_include_case(rng, lim, k, var: Variant = AS_IS):
+    """Main file + 1-3 include files, every one a random fixed-form layout of random statements
+    (all outside the known finding classes); an include statement stands alone on its logical
+    line; files only include files later in the list.  Returns (marks, [(name, Layout)], main Layout)."""
+    marks = rng.choice(MARK_SETS)
+    n = rng.randint(1, 3)
+    names = [rng.choice(INC_NAMES) % (10 * k + j) for j in range(n)]
+    subs: dict[str, Layout] = {}
+
+    def body(L, later, must_include):
+        nst = rng.randint(1, 3)
+        slots = [False] * nst
+        if later and (must_include or rng.random() < 0.35):
+            slots[rng.randrange(nst)] = True
+        for inc in slots:
+            if inc:
+                L.include_statement(rng.choice(later), subs)
+            else:
+                L.statement(gen_stmt(rng, rng.choice([3, 6, 12, 25])),
+                            rng.choice([None, None, rng.randint(1, 99999)]))
+            L.filler(False)
+
+    for j in reversed(range(n)):
+        L = Layout(rng, lim, False, var, marks)
+        if rng.random() < 0.2:
+            L.filler(False, allow_doc=False)
+        body(L, names[j + 1:], False)
+        subs[names[j]] = L
+    main = Layout(rng, lim, False, var, marks)
+    body(main, names, True)
+    for nm in names:
+        main.feat |= {"included:" + f for f in subs[nm].feat if f.startswith(("beyond-col72", "sequence-field", "break"))}
+        main.classes |= subs[nm].classes
+    if n > 1 and any("include-nested" in subs[nm].feat for nm in names):
+        main.feat.add("include-nested")
+    return marks, [(nm, subs[nm]) for nm in names], main
+
+
+def eval_include_case(drv, d: Path, case: dict, var: Variant):
+    """case: lim, marks, files [[name, fixed lines, free lines]], fixed / free (main file), expected.
+    Returns (why or None, model-vs-implementation disagreement or None, observed)."""
+    lim, marks = bool(case["lim"]), tuple(case["marks"])
+    dx, dr = d / "incfx", d / "incfr"
+    for dd in (dx, dr):
+        if dd.exists():
+            for f in dd.iterdir():
+                f.unlink()
+        dd.mkdir(exist_ok=True)
+    for name, fx, fr in case["files"]:
+        (dx / name).write_text("".join(l + "\n" for l in fx))
+        (dr / name).write_text("".join(l + "\n" for l in fr))
+    (dx / "main.f").write_text("".join(l + "\n" for l in case["fixed"]))
+    (dr / "main.f90").write_text("".join(l + "\n" for l in case["free"]))
+    it_fixed = impl_read(dx / "main.f", True, lim, marks)
+    it_free = impl_read(dr / "main.f90", False, lim, marks)
+    req = ["c14.readtree", var.code, *marks, "1", "1" if lim else "0", str(len(case["files"]))]
+    for name, fx, _ in case["files"]:
+        req += [name, str(len(fx)), *[l + "\n" for l in fx]]
+    req += [l + "\n" for l in case["fixed"]]
+    model = drv.batch([req])[0]
+    tie = None
+    if [it_fixed[0], *it_fixed[1]] != model:
+        tie = {"stream": "include", "lim": lim, "marks": list(marks), "files": case["files"],
+               "fixed": case["fixed"], "impl": it_fixed, "model": model}
+    why = layout_oracle([tuple(x) for x in case["expected"]], it_fixed, it_free, marks)
+    return why, tie, {"observed_fixed": it_fixed, "observed_free": it_free}
+
+
+# --------------------------------------------------------------------------
+# project stream: the form of a file is chosen by `Project` from its extension
+# --------------------------------------------------------------------------
+EXT_POOL = ["f", "for", "F", "FOR", "f77", "F77", "ftn", "fpp", "f90", "F90", "f95", "f03", "F03", "fh", "inc", "txt"]
+
+
+def gen_extension_lists(rng):
+    """(extensions, fixed_extensions, fpp_extensions) for `ProjectSettings`: None = the defaults;
+    else random lists (fixed and free disjoint, as `__post_init__` demands; the preprocessed ones
+    may overlap either, which puts them into the effective free-form list as well)."""
+    if rng.random() < 0.5:
+        return None
+    pool = EXT_POOL[:]
+    rng.shuffle(pool)
+    nf = rng.randint(1, 4)
+    fixed = pool[:nf]
+    free = pool[nf:nf + rng.randint(1, 4)]
+    fpp = rng.sample(pool[:nf + len(free) + 2], rng.randint(0, 3))
+    return free, fixed, fpp
+
+
+def project_settings(src: Path, lim: bool, marks, lists):
+    kw = {}
+    if lists is not None:
+        kw = dict(extensions=list(lists[0]), fixed_extensions=list(lists[1]), fpp_extensions=list(lists[2]))
+    st = make_settings(lim, marks, src_dir=[src], **kw)
+    # as `ford.main` does for `preprocess: false`, *after* the settings object was built (the
+    # effective `extensions` keep the preprocessed extensions): no external preprocessor here
+    st.preprocess = False
+    st.fpp_extensions = []
+    return st
+
+
+def run_project(src: Path, lim: bool, marks, lists):
+    """[(file name, parsed in fixed form?, entity tree)] of `Project(settings)` over the directory"""
+    import ford.sourceform as sf
+    from ford.fortran_project import Project
+
+    sf.namelist = sf.NameSelector()
+    try:
+        with common.quiet():
+            pr = Project(project_settings(src, lim, marks, lists))
+        out = []
+        for f in pr.files:
+            o = entity_obs(f)
+            o["name"] = "FILE"
+            out.append((Path(f.path).name, bool(f.fixed), o))
+        return ("ok", sorted(out, key=lambda x: x[0]))
+    except Exception as e:   # noqa: BLE001
+        return ("err", exc_name(e))
+
+
+def effective_lists(lists):
+    """the two lists `Project` looks at (after `ProjectSettings.__post_init__`)"""
+    st = project_settings(Path("."), True, MARKS, lists)
+    return list(st.extensions), list(st.fixed_extensions)
+
+
+def clear_dir(dd: Path):
+    if dd.exists():
+        for f in dd.iterdir():
+            f.unlink()
+    dd.mkdir(exist_ok=True)
+
+
+def form_probe(drv, d: Path, rng, rep, hist, n_sets):
+    """Correspondence of the form selection: a directory with one comment-only stub file per
+    extension goes through the real `Project`; which files were parsed and in which form
+    (`FortranSourceFile.fixed`) against the model `sourceForm` on the same two lists."""
+    n = bad = 0
+    for i in range(n_sets):
+        lists = None if i == 0 else gen_extension_lists(rng)
+        exts, fixed_exts = effective_lists(lists)
+        probe = sorted(set(EXT_POOL) | set(exts) | set(fixed_exts))
+        dd = d / "probe"
+        clear_dir(dd)
+        for e in probe:
+            (dd / f"stub_{e}.{e}").write_text("! nothing but a comment\n")
+        res = run_project(dd, True, MARKS, lists)
+        seen = {}
+        if res[0] == "ok":
+            seen = {name.rsplit(".", 1)[1]: ("fixed" if fx else "free") for name, fx, _ in res[1]}
+        got = drv.batch([["c14.form", e, str(len(exts)), *exts, *fixed_exts] for e in probe])
+        for e, g in zip(probe, got):
+            n += 1
+            impl = ["ok", seen.get(e, "none")] if res[0] == "ok" else ["exc", res[1]]
+            hist["form-probe-" + (impl[1] if impl[0] == "ok" else "raised")] = hist.get(
+                "form-probe-" + (impl[1] if impl[0] == "ok" else "raised"), 0) + 1
+            if impl != g:
+                bad += 1
+                rep.tie_broken(f"correspondence project/form selection: extension {e!r} with extensions={exts} "
+                               f"fixed_extensions={fixed_exts}: model {g} vs implementation {impl}",
+                               {"stream": "form-probe", "extension": e, "extensions": exts,
+                                "fixed_extensions": fixed_exts, "impl": impl, "model": g})
+    return n, bad
+
+
+def eval_project_case(d: Path, case: dict):
+    """case: lim, marks, lists, ext / free_ext, fixed / free lines.  The same program unit as the only
+    file of a project, once with a fixed-form extension, once with a free-form one."""
+    lim, marks = bool(case["lim"]), tuple(case["marks"])
+    lists = case.get("lists")
+    dx, dr = d / "prjfx", d / "prjfr"
+    clear_dir(dx)
+    clear_dir(dr)
+    (dx / f"unit.{case['ext']}").write_text("".join(l + "\n" for l in case["fixed"]))
+    (dr / f"unit.{case['free_ext']}").write_text("".join(l + "\n" for l in case["free"]))
+    a, b = run_project(dx, lim, marks, lists), run_project(dr, lim, marks, lists)
+    if b[0] != "ok" or len(b[1]) != 1 or b[1][0][1]:
+        return f"free-form project not read as expected: {str(b)[:300]} (harness defect?)"
+    if a[0] != "ok":
+        return f"project with the fixed-form file unit.{case['ext']} failed: {a[1]}"
+    if len(a[1]) != 1:
+        return f"project with the fixed-form file unit.{case['ext']} has {len(a[1])} source files"
+    why = first_diff(b[1][0][2], a[1][0][2])
+    if why:
+        return (f"entity trees differ (unit.{case['free_ext']} vs unit.{case['ext']}, the latter parsed "
+                f"{'in fixed' if a[1][0][1] else 'in FREE'} form) at " + why)
+    return None
+
+
+# --------------------------------------------------------------------------
+
+def eval_layout_files(d: Path, case: dict, tag="r"):
+    lim, marks = bool(case.get("lim", True)), tuple(case.get("marks", MARKS))
+    pf, pq = d / f"{tag}.f", d / f"{tag}.f90"
     pf.write_text("".join(l + "\n" for l in case["fixed"]))
     pq.write_text("".join(l + "\n" for l in case["free"]))
-    a, b = impl_read(pf, True, lim), impl_read(pq, False, lim)
-    why = layout_oracle([tuple(x) for x in case.get("expected", [])] or [], a, b) if case.get("expected") else (
-        None if (a[0] == b[0] == "ok" and canon_items(a[1]) == canon_items(b[1])) else "fixed and free items differ")
-    print(f"replay: fixed items {a}\n        free items  {b}\n        oracle: {why or 'holds'}")
+    return impl_read(pf, True, lim, marks), impl_read(pq, False, lim, marks)
+
+
+def eval_entity_case(d: Path, case: dict, tag="e"):
+    lim, marks = bool(case.get("lim", True)), tuple(case.get("marks", MARKS))
+    pf, pq = d / f"{tag}.f", d / f"{tag}.f90"
+    pf.write_text("".join(l + "\n" for l in case["fixed"]))
+    pq.write_text("".join(l + "\n" for l in case["free"]))
+    return entity_oracle(parse_file(pf, True, lim, marks), parse_file(pq, False, lim, marks))
+
+
+def replay_case(rep, drv, d, case, var):
+    """Re-run one stored case through the oracle of its stream."""
+    stream = case.get("stream", "layout")
+    if stream == "entity":
+        why = eval_entity_case(d, case)
+    elif stream == "project":
+        why = eval_project_case(d, case)
+    elif stream == "include":
+        why, _, obs = eval_include_case(drv, d, case, var)
+        print(f"replay: {obs}")
+    else:
+        marks = tuple(case.get("marks", MARKS))
+        a, b = eval_layout_files(d, case)
+        if case.get("expected"):
+            why = layout_oracle([tuple(x) for x in case["expected"]], a, b, marks)
+        else:
+            why = None if (a[0] == b[0] == "ok" and canon_items(a[1]) == canon_items(b[1])) else "fixed and free items differ"
+        print(f"replay: fixed items {a}\n        free items  {b}")
+    print(f"replay [{stream}] oracle: {why or 'holds'}")
     return why
 
 
@@ -693,7 +1081,11 @@ def run(tier: str, seed: int, replay: str | None = None) -> int:
         rep.tie_broken("proof: " + b)
     common.import_ford()
     # which variant of the converter is under test: probed on the real code, and read from the source
-    var = probe_variant()
+    try:
+        var = probe_variant()
+    except Exception as e:   # noqa: BLE001
+        rep.tie_broken(f"variant: the real FortranLine raised on a probe line ({exc_name(e)}); assuming the code as it is")
+        var = AS_IS
     try:
         t = tr.extract(common.REPO)
         static = Variant(t["blankShort"], t["col7Comment"], t["excessLiteral"] == "! ")
@@ -707,6 +1099,9 @@ def run(tier: str, seed: int, replay: str | None = None) -> int:
     n_junk = 12000 if quick else 120000
     n_layout = 6000 if quick else 60000
     n_entity = 200 if quick else 2000
+    n_include = 400 if quick else 4000
+    n_project = 60 if quick else 600
+    n_formsets = 6 if quick else 40
 
     hist: dict[str, int] = {}
     samples = []
@@ -719,7 +1114,7 @@ def run(tier: str, seed: int, replay: str | None = None) -> int:
             obj = json.loads(Path(replay).read_text())
             for case in obj.get("cases", []):
                 if "fixed" in case:
-                    why = replay_case(rep, drv, d, case)
+                    why = replay_case(rep, drv, d, case, var)
                     if why:
                         rep.failing_input(dict(case, why=why), case.get("class"))
             rep.coverage.update(evaluations=len(obj.get("cases", [])), distinct_nontrivial=0,
@@ -736,76 +1131,117 @@ def run(tier: str, seed: int, replay: str | None = None) -> int:
             cases.append(gen_layout_case(rng, lim, risky=(k % 4 == 0), var=var))
         nl = [[l + "\n" for l in L.fixed] for L in cases]
         m_conv = drv.batch([["c14.conv", var.code, "1" if L.lim else "0", *ls] for L, ls in zip(cases, nl)])
-        m_read = drv.batch([["c14.read", var.code, *MARKS, "1" if L.lim else "0", *ls] for L, ls in zip(cases, nl)])
+        m_read = drv.batch([["c14.read", var.code, *L.marks, "1" if L.lim else "0", *ls] for L, ls in zip(cases, nl)])
         for k, (L, ls, mc, mr) in enumerate(zip(cases, nl, m_conv, m_read)):
-            pf, pq = d / f"c{k % 32}.f", d / f"c{k % 32}.f90"
-            pf.write_text("".join(ls))
-            pq.write_text("".join(l + "\n" for l in L.free))
             for f in L.feat:
                 hist[f] = hist.get(f, 0) + 1
             hist["limit-on" if L.lim else "limit-off"] = hist.get("limit-on" if L.lim else "limit-off", 0) + 1
+            hist["marks:" + " ".join(m or "-" for m in L.marks)] = hist.get("marks:" + " ".join(m or "-" for m in L.marks), 0) + 1
             for c in L.classes:
                 hist["class:" + c] = hist.get("class:" + c, 0) + 1
             if L.feat & {"break", "label", "sequence-field", "inline-doc", "doc-line-col1"}:
                 distinct.add(common.digest([L.lim, L.fixed]))
-            ic = impl_conv(ls, L.lim)
-            if ["ok", *ic] != mc:
+            ic = impl_conv_safe(ls, L.lim)
+            if ic != mc:
                 n_bad_corr += 1
                 rep.tie_broken(f"correspondence layout/convertToFree: model and implementation differ on case {k}",
                                {"stream": "layout", "lim": L.lim, "fixed": L.fixed, "impl": ic, "model": mc})
-            it_fixed = impl_read(pf, True, L.lim)
+            case = {"stream": "layout", "lim": L.lim, "marks": list(L.marks), "fixed": L.fixed, "free": L.free,
+                    "expected": L.expected}
+            it_fixed, it_free = eval_layout_files(d, case, f"c{k % 32}")
             if [it_fixed[0], *it_fixed[1]] != mr:
                 n_bad_corr += 1
                 rep.tie_broken(f"correspondence layout/reader-after-converter: model and implementation differ on case {k}",
-                               {"stream": "layout", "lim": L.lim, "fixed": L.fixed, "impl": it_fixed, "model": mr})
-            it_free = impl_read(pq, False, L.lim)
+                               {"stream": "layout", "lim": L.lim, "marks": list(L.marks), "fixed": L.fixed,
+                                "impl": it_fixed, "model": mr})
             if len(samples) < 3 and {"break", "label", "sequence-field"} <= L.feat and not L.classes:
                 samples.append({"lim": L.lim, "fixed": L.fixed, "free": L.free, "items": it_fixed[1]})
-            why = layout_oracle(L.expected, it_fixed, it_free)
+            why = layout_oracle(L.expected, it_fixed, it_free, L.marks)
             if why is not None:
                 n_oracle_fail += 1
                 cls = classify(L.classes)
-                rep.failing_input({"stream": "layout", "lim": L.lim, "fixed": L.fixed, "free": L.free,
-                                   "expected": L.expected, "observed_fixed": it_fixed, "observed_free": it_free,
-                                   "why": why, "features": sorted(L.feat), "class": cls}, cls)
+                rep.failing_input(dict(case, observed_fixed=it_fixed, observed_free=it_free, why=why,
+                                       features=sorted(L.feat), **{"class": cls}), cls)
+
+        # ---------------- include stream
+        n_inc_eval = 0
+        for k in range(n_include):
+            lim = rng.random() < 0.5
+            marks, files, main = gen_include_case(rng, lim, k, var)
+            case = {"stream": "include", "lim": lim, "marks": list(marks),
+                    "files": [[nm, L.fixed, L.free] for nm, L in files],
+                    "fixed": main.fixed, "free": main.free, "expected": main.expected}
+            why, tie, obs = eval_include_case(drv, d, case, var)
+            n_inc_eval += 1
+            hist["include-case"] = hist.get("include-case", 0) + 1
+            for f in main.feat:
+                if f.startswith(("include", "included:")):
+                    hist[f] = hist.get(f, 0) + 1
+            hist["include-limit-" + ("on" if lim else "off")] = hist.get("include-limit-" + ("on" if lim else "off"), 0) + 1
+            distinct.add(common.digest([lim, case["files"], main.fixed]))
+            if tie is not None:
+                n_bad_corr += 1
+                rep.tie_broken(f"correspondence include/reader over an include tree: model and implementation differ on case {k}", tie)
+            if why is not None:
+                n_oracle_fail += 1
+                cls = classify(main.classes)
+                rep.failing_input(dict(case, why=why, features=sorted(main.feat), **obs, **{"class": cls}), cls)
 
         # ---------------- entity stream
         n_ent_eval = 0
         for k in range(n_entity):
             lim = rng.random() < 0.65
             prog = gen_program(rng, k)
-            L = render_program(rng, prog, lim, risky=(k % 4 == 0), var=var)
-            pf, pq = d / f"e{k % 8}.f", d / f"e{k % 8}.f90"
-            pf.write_text("".join(l + "\n" for l in L.fixed))
-            pq.write_text("".join(l + "\n" for l in L.free))
-            a, b = parse_file(pf, True, lim), parse_file(pq, False, lim)
+            L = render_program(rng, prog, lim, risky=(k % 4 == 0), var=var, marks=rng.choice(MARK_SETS))
+            case = {"stream": "entity", "lim": lim, "marks": list(L.marks), "fixed": L.fixed, "free": L.free}
+            why = eval_entity_case(d, case, f"e{k % 8}")
             n_ent_eval += 1
             hist["entity-file"] = hist.get("entity-file", 0) + 1
             for c in L.classes:
                 hist["entity-class:" + c] = hist.get("entity-class:" + c, 0) + 1
             if not L.classes:
                 distinct.add(common.digest([lim, L.fixed]))
-            why = None
-            if a[0] != "ok" or b[0] != "ok":
-                why = f"parse failed: fixed {a if a[0] != 'ok' else 'ok'} free {b if b[0] != 'ok' else 'ok'}"
-            else:
-                why = first_diff(b[1], a[1])
-                if why:
-                    why = "entity trees differ (free vs fixed) at " + why
             if why is not None:
                 n_oracle_fail += 1
                 cls = classify(L.classes)
-                rep.failing_input({"stream": "entity", "lim": lim, "fixed": L.fixed, "free": L.free,
-                                   "why": why[:600], "features": sorted(L.feat), "class": cls}, cls)
+                rep.failing_input(dict(case, why=why[:600], features=sorted(L.feat), **{"class": cls}), cls)
+
+        # ---------------- project stream
+        ev_form, bad_form = form_probe(drv, d, rng, rep, hist, n_formsets)
+        n_bad_corr += bad_form
+        n_prj_eval = 0
+        for k in range(n_project):
+            lim = rng.random() < 0.65
+            lists = None if k < 8 else gen_extension_lists(rng)
+            exts, fixed_exts = effective_lists(lists)
+            free_only = sorted(e for e in exts if e not in fixed_exts)
+            # every fixed-form extension of the default lists comes first, then random ones
+            ext = sorted(fixed_exts)[k % len(fixed_exts)] if k < 8 else rng.choice(sorted(fixed_exts))
+            free_ext = rng.choice(free_only)
+            prog = gen_program(rng, 5000 + k)
+            L = render_program(rng, prog, lim, risky=False, var=var, marks=rng.choice(MARK_SETS))
+            case = {"stream": "project", "lim": lim, "marks": list(L.marks), "lists": lists, "ext": ext,
+                    "free_ext": free_ext, "fixed": L.fixed, "free": L.free}
+            why = eval_project_case(d, case)
+            n_prj_eval += 1
+            hist["project-file"] = hist.get("project-file", 0) + 1
+            hist["project-ext-" + ("also-free-listed" if ext in exts else "fixed-only")] = hist.get(
+                "project-ext-" + ("also-free-listed" if ext in exts else "fixed-only"), 0) + 1
+            distinct.add(common.digest([lim, ext, L.fixed]))
+            if why is not None:
+                n_oracle_fail += 1
+                cls = classify(L.classes)
+                rep.failing_input(dict(case, why=why[:600], effective_extensions=exts, fixed_extensions=fixed_exts,
+                                       **{"class": cls}), cls)
     drv.close()
     rep.coverage.update(
-        evaluations=ev_junk + 3 * len(cases) + n_ent_eval,
+        evaluations=ev_junk + 3 * len(cases) + 2 * n_inc_eval + n_ent_eval + ev_form + n_prj_eval,
         distinct_nontrivial=len(distinct),
-        rule="layout/entity cases are (token-sequence statements x random fixed-form layout x limit setting); "
-             "non-trivial = has a continuation break, a label, a sequence field or a doc comment; distinct by "
-             "digest of (limit, fixed-form lines)",
+        rule="layout/entity/include/project cases are (token-sequence statements x random fixed-form layout x limit "
+             "setting x set of documentation marks); non-trivial = has a continuation break, a label, a sequence field "
+             "or a doc comment (include and project cases always); distinct by digest of (limit, fixed-form lines)",
         samples=samples,
-        traces_validated_against_impl=ev_junk + 2 * len(cases),
+        traces_validated_against_impl=ev_junk + 2 * len(cases) + n_inc_eval + ev_form,
         correspondence_disagreements=n_bad_corr,
         oracle_failures=n_oracle_fail,
         layout_feature_histogram=dict(sorted(hist.items())),
@@ -816,7 +1252,10 @@ def run(tier: str, seed: int, replay: str | None = None) -> int:
     rep.assumptions += [
         "continuation breaks are placed between tokens; fixed-form 'blanks are insignificant inside tokens' and "
         "character literals continued across fixed-form lines are outside the generated class (see notes/C14.md)",
-        "tab-format source, non-ASCII text, include expansion and the preprocessor are not modelled",
-        "the free-form reader model (Reader.lean) is the one validated by C02; here it is composed with the converter model",
+        "tab-format source, non-ASCII text and the external preprocessor are not modelled (project cases run with "
+        "fpp_extensions emptied after the settings were built, as ford.main does for preprocess: false)",
+        "include files are looked up in the directory of the including file only (flat file system in the model)",
+        "the free-form reader model (Reader.lean) and the include queue (Include.lean) are the ones validated by C02; "
+        "here they are composed with the converter model",
     ]
     return rep.finish(lean)
